@@ -107,7 +107,13 @@ pub fn probe(r: &mut Runner, _step: &Step) {
         let twap: Option<U> = match (twap_own, twap_q) {
             (super::engine_refs::TwapRef::Value(a), Some(b)) => {
                 r.ev.count(if a == b { "twap15_reference_equals_vamm_answer" } else { "twap15_reference_differs_from_vamm_answer" });
-                Some(a)
+                // within one unit the vAMM's answer is a rounding of the same average (the statement does not say how
+                // it is rounded) and is taken; further away the harness's own stands
+                if a.abs_diff(b) <= 1 {
+                    Some(b)
+                } else {
+                    Some(a)
+                }
             }
             (super::engine_refs::TwapRef::Value(a), None) => {
                 r.ev.count("twap15_vamm_query_failed_reference_available");
